@@ -693,7 +693,8 @@ RESTS = [' 1', ' * from t', ' a, b from t where x = 1', ' into t values (1)', ' 
          ' as struct 1 as a', ' AS VALUE x from t', ' + 1', ' = 1', ' , a', ' in (1)', ' between 1 and 2', ' like x', ' and b',
          ' or b', ' not null', ' is null', ' order by a', ' union select 2', ' case when a then b end', " date '2020-01-01'",
          ' [1]', ' -1', ' distinct a', ' over (x)', ' where x', ' limit 1', ' a asc', ' %s', ' ?', ' @v', ' "x" y', ' null',
-         ' values (1)', ' a -> b', ' a::int', " 'x'::text", ' := 1', ' :: int', ' . x']
+         ' values (1)', ' a -> b', ' a::int', " 'x'::text", ' := 1', ' :: int', ' . x',
+         " at time zone 'utc' as x", " AT TIME ZONE 'utc' 'x'", ' x:=a b:=;', ' 1 x:=a b:=;', ' x := 1, y := 2 from t', ' x:=a b:=c;']
 AFTER = [' ', '\n', '\t', '  ', '(1)', '.1', '.x', '(', ';', '', '*', ',', '/* c */', '-- c\n', "'s'", '"x"', '=1',
          '[1]', '::int', ':x', '+1', '-1', '@']
 
